@@ -6,6 +6,11 @@ stdin : {"groups": [ {"id", "wavelength": OPERAND, "incident_beam": OPERAND(vect
                       "R": ROT, "U": ROT, "B": {"values": [9 hex floats row-major], "unit": str},
                       "Q": optional OPERAND(vector3) used for hkl instead of the computed Q vector} ]}
   OPERAND as in kernels_impl.py;  ROT = {"kind": "quat"|"matrix", "values": [[4 or 9 hex floats], ...], "dim": null|"p"}
+  optional per group  "graph": {"start": "wavelength"|"tof", "customise": null|"override-ub"|"override-Q_vec"|"override-hkl"|"clear"}:
+  the same quantities through the GRAPH entry points conversion.graph.tof.elastic_Q_vec / elastic_hkl + transform_coords
+  (result under "graph", same layout); afterwards the CALLER's copies of the returned graphs are modified as named -
+  a caller may do with a returned dict what it likes, later calls must not see it.
+  Groups are evaluated in the given order in ONE process (call histories: see props/C08.py).
 stdout: 'RESULT <json>': per group the operands as stored (exact rationals) and every kernel's result
         (exact, element by element) or the error class.
 """
@@ -65,6 +70,50 @@ def attempt(res, key, f):
         return None
 
 
+def customise(graph, how):
+    """what a caller may do with a graph it received"""
+    if how == 'override-ub':            # "I only have B"
+        graph['ub_matrix'] = lambda b_matrix: b_matrix
+    elif how == 'override-Q_vec':       # another axis convention
+        graph['Q_vec'] = lambda Qx, Qy, Qz: sc.spatial.as_vectors(Qz, Qy, Qx)
+    elif how == 'override-hkl':         # sample not rotated, other 2 pi convention
+        graph['hkl_vec'] = lambda Q_vec, ub_matrix: sc.spatial.inv(ub_matrix) * Q_vec
+    elif how == 'clear':
+        graph.clear()
+
+
+def via_graph(spec, lam, bi, bf, R, U, B, Qin):
+    from scippneutron.conversion.graph import tof as gtof
+    res = {}
+    n = bf.sizes['p']
+    coords = {'wavelength': lam, 'incident_beam': bi, 'scattered_beam': bf, 'sample_rotation': R, 'u_matrix': U, 'b_matrix': B}
+    da = sc.DataArray(sc.zeros(dims=['p'], shape=[n]), coords={k: v.copy() for k, v in coords.items()})
+    gq = gtof.elastic_Q_vec(spec['start'])
+    gh = gtof.elastic_hkl(spec['start'])
+    opts = {'rename_dims': False, 'keep_inputs': True, 'keep_intermediate': True, 'keep_aliases': True}
+    try:
+        dq = da.transform_coords(['Q_vec', 'Qx', 'Qy', 'Qz'], graph=gq, **opts)
+        res['Qel'] = {'dict': {c: describe_any(dq.coords[c]) for c in ('Qx', 'Qy', 'Qz')}}
+        res['Qvec'] = describe_any(dq.coords['Q_vec'])
+    except Exception as ex:
+        res['Qvec'] = {'error': type(ex).__name__, 'error_text': str(ex)[:200]}
+    dh = da.copy(deep=False)
+    if Qin is not None:
+        dh.coords['Q_vec'] = Qin.copy()
+    try:
+        out = dh.transform_coords(['hkl_vec', 'h', 'k', 'l', 'ub_matrix'], graph=gh, **opts)
+        res['UB'] = describe_any(out.coords['ub_matrix'])
+        res['hkl'] = describe_any(out.coords['hkl_vec'])
+        res['hkl_el'] = {'dict': {c: describe_any(out.coords[c]) for c in ('h', 'k', 'l')}}
+        if Qin is None:
+            res['Qvec_of_hkl_graph'] = describe_any(out.coords['Q_vec'])
+    except Exception as ex:
+        res['hkl'] = {'error': type(ex).__name__, 'error_text': str(ex)[:200]}
+    customise(gq, spec.get('customise'))
+    customise(gh, spec.get('customise'))
+    return res
+
+
 def main():
     req = json.load(sys.stdin)
     out = []
@@ -100,6 +149,12 @@ def main():
                 he = attempt(res, 'hkl_el', lambda: tof.hkl_elements_from_hkl_vec(hkl_vec=hk))
                 if he is not None:
                     attempt(res, 'rejoined', lambda: tof.Q_vec_from_Q_elements(Qx=he['h'], Qy=he['k'], Qz=he['l']))
+        if g.get('graph'):
+            try:
+                res['graph'] = via_graph(g['graph'], lam, bi, bf, R, U, B, Qin)
+            except Exception as ex:
+                res['graph'] = {'hkl': {'error': type(ex).__name__, 'error_text': str(ex)[:200]},
+                                'Qvec': {'error': type(ex).__name__, 'error_text': str(ex)[:200]}}
         res['inputs_unchanged'] = all(sc.identical(a, b, equal_nan=True) for a, b in zip((lam, bi, bf, R, U, B), snap))
         # components with two dimensions, one of them stored in the other dim ORDER (e.g. after a transpose upstream):
         # joining must pair elements by dimension LABEL; splitting the result must give the components back
